@@ -213,6 +213,20 @@ def shrink_scn(ck, hbin, drv, scn, env, cls, tries=3):
     return " ".join(head + bs), best
 
 
+def confirmed(ck, hbin, drv, env, f, stats):
+    """A rejected trace that shows a model mismatch is evidence by itself.  A TIMEOUT is only a
+    symptom (the machine is shared and may be overloaded): it counts when the same scenario
+    fails to complete again in at least one of 4 serial re-runs."""
+    if "TIMEOUT" not in f[1] and "hard-timeout" not in f[1]:
+        return True
+    for _ in range(4):
+        tr, vs, err = run_chunk((hbin, drv, [f[0]], env, 60))
+        if vs and not vs[0].startswith("ok "):
+            return True
+    stats["unconfirmed_timeouts"] = stats.get("unconfirmed_timeouts", 0) + 1
+    return False
+
+
 def report_fail(ck, hbin, drv, env, label, f, shrink=True):
     scn, verdict, trace, err = f
     cls = classify(verdict)
@@ -286,6 +300,7 @@ def run(ck):
 
     # 1. ASan/UBSan build, trace validation
     fails = run_scenarios(ck, hbin, drv, scns, env, "asan", stats)
+    fails = [f for f in fails if confirmed(ck, hbin, drv, env, f, stats)]
     seen = set()
     for f in fails:
         c = classify(f[1])
@@ -297,6 +312,7 @@ def run(ck):
     nt = ck.scale(300, 6000)
     tscn = scns[:len(corpus)] + scns[len(corpus)::max(1, len(scns) // nt)][:nt]
     tf = run_scenarios(ck, htsan, drv, tscn, env, "tsan", tstats, tsan=True)
+    tf = [f for f in tf if confirmed(ck, htsan, drv, env, f, tstats)]
     for f in tf[:2]:
         if classify(f[1]) in seen:
             continue
